@@ -26,7 +26,7 @@ MAX_ID_WRITERS = {
 MAX_ID_LITERALS = {"Document::new": r"^0$", "Document::new_from_prev": r"^\*?prev\.max_id$", "<Document as Clone>::clone": r"^clone\(&\*self\.max_id\)$"}
 
 
-def run(ctx):
+def _run(ctx):
     F = ctx.facts("default")
     R = "R-WHO"
     seen = 0
@@ -62,19 +62,7 @@ def run(ctx):
     st = lib.stores_to_field(no, "max_id", "Document")
     ctx.ob("R-ORDER", "new_object_id-returns-new-max_id", rets == ["tuple(*self.max_id,0)"] and len(st) == 1, "returns (max_id, 0) after max_id += 1", no.where(),
            what="new_object_id does not return the freshly incremented max_id")
-    # build_outline: ids come from a local counter started at max_id and only incremented; max_id is assigned from it at the end
-    bo = F.fn("Document::build_outline")
-    mx = [l for l, n in bo.names.items() if n == "maxid"]
-    okb = False
-    if len(mx) == 1:
-        defs = bo.defs.get(mx[0], [])
-        ts = [bo.rvname(d[3], 3) for d in defs if d[2] == "rv"]
-        okb = ts[:1] == ["*self.max_id"] and all(re.match(r"^\*self\.max_id$|^Add\(maxid,1\)$", t) for t in ts)
-    ctx.ob("R-ORDER", "build_outline-fresh-ids", okb, "maxid starts at self.max_id and is only incremented", bo.where(), what="build_outline's id counter is not (self.max_id, then += 1 only)")
-    oc = F.fn("Document::outline_child")
-    ups = [oc.rvname(s["rv"], 3) for bi, si, s in oc.stmts() if "lhs" in s and s["lhs"]["p"] == ["*"] and oc.names.get(s["lhs"]["l"]) == "maxid"]
-    ctx.ob("R-ORDER", "outline_child-fresh-ids", bool(ups) and all(re.match(r"^Add\(\*maxid,1\)$", t) for t in ups), "outline_child only increments *maxid (%d sites)" % len(ups), oc.where(),
-           what="outline_child changes the shared id counter other than by += 1")
+    outline_ids(ctx, F)
     # 2. delete_object
     do = F.fn("Document::delete_object")
     tr = lib.local_calls(F, do, "Document::traverse_objects")
@@ -162,3 +150,50 @@ def run(ctx):
     so = F.fn("Document::set_object")
     ctx.ob("R-ORDER", "set_object-inserts-under-given-id", len([c for c in so.calls if re.search(r"BTreeMap::<.*>::insert$", c.fn or "") and so.oname(c.args[1], 2) == "id"]) == 1, "set_object inserts under the id it was given", so.where(),
            what="set_object no longer stores the object under the given id")
+
+
+def outline_ids(ctx, F):
+    """build_outline numbers the outline objects from a counter that starts at self.max_id and is only incremented (in
+    build_outline and, through `&mut`, in outline_child); identified by data flow: the u32 local handed to outline_child
+    as `&mut u32`."""
+    bo = F.fn("Document::build_outline")
+    oc = F.fn("Document::outline_child")
+    cpar = [i for i in range(1, oc.argc + 1) if oc.lty(i).replace(" ", "") in ("&mutu32",)]
+    L = None
+    for c in lib.local_calls(F, bo, "Document::outline_child"):
+        if len(cpar) == 1 and cpar[0] - 1 < len(c.args):
+            o = lib.origin_local(F, bo, c.args[cpar[0] - 1])
+            if o is not None and o[0] is bo and not o[2]:
+                L = o[1]
+    okb = False
+    ts = []
+    if L is not None:
+        with bo.alpha(args=True):
+            for d in bo.defs.get(L, []):
+                if d[2] == "rv":
+                    ts.append(bo.rvname(d[3], 3).replace("*", "").replace("&", ""))
+                elif d[2] != "proj":
+                    ts.append("call")
+        me = None
+        with bo.alpha(args=True):
+            me = bo.lname(L)
+        okb = ts[:1] == ["arg1.max_id"] and all(t == "arg1.max_id" or re.match(r"^Add\(%s,1\)$" % re.escape(me), t) for t in ts)
+    ctx.ob("R-ORDER", "build_outline-fresh-ids", okb, "the id counter starts at self.max_id and is only incremented (%s)" % ts, bo.where(),
+           what="build_outline's id counter is not (self.max_id, then += 1 only) but %s: an id handed out by new_object_id() and not stored yet, or any id above the stored objects, can be given to an outline object as well" % ts)
+    ups = []
+    if len(cpar) == 1:
+        for bi, si, st in oc.stmts():
+            if "lhs" in st and st["lhs"]["p"] == ["*"]:
+                rp = oc.root_place(st["lhs"], through_names=True)
+                if rp["l"] == cpar[0]:
+                    with oc.alpha(args=True):
+                        ups.append(oc.rvname(st["rv"], 3).replace("*", "").replace("&", ""))
+    ctx.ob("R-ORDER", "outline_child-fresh-ids", bool(ups) and all(t == "Add(arg%d,1)" % cpar[0] for t in ups), "outline_child only increments the shared counter (%d sites)" % len(ups), oc.where(),
+           what="outline_child changes the shared id counter other than by += 1 (%s)" % ups)
+
+
+def run(ctx):
+    _run(ctx)
+    # renumbering is an editing operation too: the structural rules of C10 are part of "editing keeps the document sound"
+    import prop_c10
+    prop_c10.run(ctx)
